@@ -251,6 +251,27 @@ class MixingOracle(Oracle):
     def _init(self, run):
         self.vols = [list(st["vols"]) for st in run.init_state["labs"]]
         self.amts = []
+        # initial state: every filled well consists 100 % of ONE component with the name the property prescribes
+        for spec, st in zip(self.prog["labs"], run.init_state["labs"]):
+            trough = spec["kind"] == "trough" or spec.get("vrows") is not None
+            cols = spec["cols"]
+            rows = 1 if trough else spec["rows"]
+            for wi, v in enumerate(st["vols"]):
+                present = [name for name, fr in st["comp"] if fr[wi] != 0]
+                if v == 0:
+                    continue
+                r, c = wi // cols, wi % cols
+                wid_ = "ABCDEFGHIJKLMNOPQRSTUVWXYZ"[r] + f"{c + 1:02d}"
+                if spec["kind"] == "trough":
+                    cn = spec.get("col_names")
+                    given = None if cn is None else (cn[1] if cn[0] == "S" else cn[1][c])
+                    want = given if given is not None else (f"{spec['name']}.column_{c + 1:02d}" if cols > 1 else spec["name"])
+                else:
+                    given = (spec.get("names") or {}).get(wid_)
+                    want = given if given is not None else (f"{spec['name']}.{wid_}" if rows > 1 else spec["name"])
+                if present != [want] or [fr[wi] for name, fr in st["comp"] if name == want] != [1]:
+                    self.fail("C05:initial-component-name", f"initially filled well {wid_} of {spec['name']} consists of {present}, expected 100 % {want!r}", -1)
+                    break
         for st in run.init_state["labs"]:
             a = [dict() for _ in st["vols"]]
             for name, fr in st["comp"]:
@@ -386,6 +407,16 @@ class HistoryOracle(Oracle):
         for L in run.labs:
             a = L.volumes
             self.handed.append((a, a.copy(), f"after op {i}"))
+        if exc is not None:
+            # a refused operation adds no entry and may not touch earlier ones either; it may leave the labware partly
+            # updated WITHOUT an entry (C02/C03 speak about that state), so until the next entry is logged the newest
+            # entry need not equal the current volumes
+            self.dirty = set(range(len(run.labs)))
+            for li, L in enumerate(run.labs):
+                old, new = self.snap[li], hist_now[li]
+                if new[:len(old)] != old and not (op["op"] == "transfer" and op.get("label") in ("first", "last")):
+                    self.fail(f"C11:history-prefix-changed-by-refused:{op['op']}",
+                              f"op {i} ({op['op']}, refused): earlier history entries of {L.name} changed", i)
         if exc is None:
             k = op["op"]
             for li, L in enumerate(run.labs):
@@ -414,7 +445,13 @@ class HistoryOracle(Oracle):
                     expected = 0
                 if expected is not None and gained != expected:
                     self.fail(f"C11:entries-per-operation:{k}", f"op {i} ({k}): {L.name} gained {gained} history entries, expected {expected}", i)
-                if gained > 0 or (k == "transfer" and participates):
+                moved_nothing = k == "transfer" and not any(F(v) > 0 for v in flatF(op["vols"]))
+                if moved_nothing and li in self.dirty:
+                    # a transfer that moves nothing re-logs the last SNAPSHOT (condense_log(0)); after a refused, partly
+                    # applied operation that snapshot is older than the volumes — a consequence of the partial update the
+                    # refused operation left (C02/C03 territory), not of this operation (DESIGN §13.3)
+                    pass
+                elif gained > 0 or (k == "transfer" and participates):
                     lb, st = new[-1]
                     cur = [q(v) for v in L.volumes.flatten()]
                     if st != cur:
@@ -445,10 +482,14 @@ class HistoryOracle(Oracle):
                     expect += "\n"
                 if rep != expect:
                     self.fail("C11:report", f"op {i}: report does not list the history entries in order", i)
+        if exc is None and not (op["op"] == "transfer" and not any(F(v) > 0 for v in flatF(op["vols"]))):
+            # labware that logged a fresh entry from its current volumes is consistent again
+            self.dirty = {li for li in self.dirty if not len(hist_now[li]) > len(self.snap[li])}
         self.snap = hist_now
         self.nrecs = len(run.wl)
 
     nrecs = 0
+    dirty = frozenset()
 
     def participates(self, op, li):
         k = op["op"]
